@@ -8,7 +8,9 @@
 //	sa      <a> <b> <impl safeAdd(a,b)>
 //	calc    <schema> <customs> <vars> <doc> <impl Calculate|panic:…> <oracle> <tags> <query>
 //	gate    <schema> <customs> <vars> <doc> <limit> <execCalls> <code|-> <statsComplexity> <statsLimit>
-//	        <httpExecCalls> <httpCode|-> <httpStatus> <resolverCalls> <query>
+//	        <httpExecCalls> <httpCode|-> <httpStatus> <resolverCalls> <query> <getExecCalls|na> <getCode|-|na>
+//	mono    <customs> <impl before> <impl after> <query before> <query after>   (one selection added at the top level)
+//	witness <customs> <impl before> <impl after> <query before> <query after>   (Lean: monotone_add_selection_witness)
 //	bad     <limit> <execCalls> <code|-> <httpExecCalls> <httpCode|-> <query>
 package main
 
@@ -23,6 +25,7 @@ import (
 	"math/big"
 	"net/http"
 	"net/http/httptest"
+	"net/url"
 	"os"
 	"sort"
 	"strconv"
@@ -83,6 +86,90 @@ type Sq implements Shape { area: Int next(n: Int = 1): Shape side: Int inner(n: 
 union U = Sq
 type Query { shape(n: Int): Shape sq: Sq u: U list(first: Int = 4, w: Float = 1): [Sq!] }
 `
+
+// randomSDL: a seeded random schema - objects implementing random subsets of interfaces (an interface may end
+// up without implementors), unions, fields of random composite/scalar types with Int arguments and defaults.
+func randomSDL(r *rng.R) string {
+	nObj, nIf, nUn := 2+r.Below(4), 1+r.Below(3), r.Below(3)
+	var objs, ifs, uns, comp []string
+	for i := 0; i < nObj; i++ {
+		objs = append(objs, fmt.Sprintf("O%d", i))
+	}
+	for i := 0; i < nIf; i++ {
+		ifs = append(ifs, fmt.Sprintf("I%d", i))
+	}
+	for i := 0; i < nUn; i++ {
+		uns = append(uns, fmt.Sprintf("U%d", i))
+	}
+	comp = append(append(append(comp, objs...), ifs...), uns...)
+	field := func(name string) string {
+		t := []string{"%s", "%s!", "[%s]", "[%s!]!"}[r.Below(4)]
+		t = fmt.Sprintf(t, func() string {
+			if r.Below(10) >= 4 {
+				return comp[r.Below(len(comp))]
+			}
+			return []string{"Int", "String", "ID"}[r.Below(3)]
+		}())
+		var args []string
+		if r.Below(2) == 0 {
+			args = append(args, "n: Int")
+		}
+		if r.Below(3) == 0 {
+			args = append(args, fmt.Sprintf("m: Int = %d", r.Below(9)))
+		}
+		if r.Below(5) == 0 {
+			args = append(args, "s: String")
+		}
+		a := ""
+		if len(args) > 0 {
+			a = "(" + strings.Join(args, ", ") + ")"
+		}
+		return name + a + ": " + t
+	}
+	var b strings.Builder
+	ifFields := make([][]string, nIf)
+	for i := range ifs {
+		for j := 0; j <= r.Below(3); j++ {
+			ifFields[i] = append(ifFields[i], field(fmt.Sprintf("i%df%d", i, j)))
+		}
+		fmt.Fprintf(&b, "interface %s { %s }\n", ifs[i], strings.Join(ifFields[i], " "))
+	}
+	for i, o := range objs {
+		var impl, fs []string
+		for k := range ifs {
+			if r.Below(5) < 2 {
+				impl = append(impl, ifs[k])
+				fs = append(fs, ifFields[k]...)
+			}
+		}
+		for j := 0; j <= r.Below(3); j++ {
+			fs = append(fs, field(fmt.Sprintf("o%df%d", i, j)))
+		}
+		hdr := "type " + o
+		if len(impl) > 0 {
+			hdr += " implements " + strings.Join(impl, " & ")
+		}
+		fmt.Fprintf(&b, "%s { %s }\n", hdr, strings.Join(fs, " "))
+	}
+	for _, u := range uns {
+		var ms []string
+		for _, o := range objs {
+			if r.Below(2) == 0 {
+				ms = append(ms, o)
+			}
+		}
+		if len(ms) == 0 {
+			ms = []string{objs[r.Below(len(objs))]}
+		}
+		fmt.Fprintf(&b, "union %s = %s\n", u, strings.Join(ms, " | "))
+	}
+	b.WriteString("type Query { scalar: Int")
+	for _, c := range comp {
+		fmt.Fprintf(&b, " q%s(n: Int = 2): %s", c, c)
+	}
+	b.WriteString(" }\n")
+	return b.String()
+}
 
 func mustSchema(sdl string) *ast.Schema {
 	s, err := gqlparser.LoadSchema(&ast.Source{Name: "probe", Input: sdl})
@@ -773,6 +860,8 @@ type gateResult struct {
 	httpExec                 int
 	httpCode                 string
 	httpStatus               int
+	getExec                  string // "na" for mutations (GET refuses them before the gate)
+	getCode                  string
 }
 
 func varsJSON(vars map[string]any) map[string]any {
@@ -843,6 +932,33 @@ func runGate(schema *ast.Schema, cus customs, query string, vars map[string]any,
 			g.httpCode = c
 		}
 	}
+	// (3) and through transport.GET (queries only)
+	g.getExec, g.getCode = "na", "na"
+	if strings.HasPrefix(query, "query") && !strings.Contains(query, "mutation Other") {
+		es3 := &execSchema{schema: schema, cus: cus}
+		srv3 := handler.New(es3)
+		srv3.AddTransport(transport.GET{})
+		srv3.Use(extension.FixedComplexityLimit(limit))
+		vj, _ := json.Marshal(vars)
+		uv := url.Values{"query": {query}, "operationName": {opName}, "variables": {string(vj)}}
+		req3 := httptest.NewRequest(http.MethodGet, "/query?"+uv.Encode(), nil)
+		rec3 := httptest.NewRecorder()
+		srv3.ServeHTTP(rec3, req3)
+		g.getExec, g.getCode = strconv.Itoa(es3.execCalls), "-"
+		var resp3 struct {
+			Errors []struct {
+				Extensions map[string]any `json:"extensions"`
+			} `json:"errors"`
+		}
+		if err := json.Unmarshal(rec3.Body.Bytes(), &resp3); err != nil {
+			g.getCode = "bad-json"
+		} else if len(resp3.Errors) > 0 {
+			g.getCode = "no-code"
+			if c, ok := resp3.Errors[0].Extensions["code"].(string); ok {
+				g.getCode = c
+			}
+		}
+	}
 	return g, ""
 }
 
@@ -862,8 +978,8 @@ func emitGate(c *opCase, cus customs, limit int) {
 	if perr != "" {
 		g.code = perr
 	}
-	fmt.Fprintf(out, "gate\t%s\t%s\t%s\t%s\t%d\t%d\t%s\t%s\t%s\t%d\t%s\t%d\t%d\t%s\n", schemaTok(c.schema), cus.String(), varsTok(c.vars),
-		docTok(c.op), limit, g.execCalls, g.code, g.statsC, g.statsL, g.httpExec, g.httpCode, g.httpStatus, g.resolverCalls, flat(c.query))
+	fmt.Fprintf(out, "gate\t%s\t%s\t%s\t%s\t%d\t%d\t%s\t%s\t%s\t%d\t%s\t%d\t%d\t%s\t%s\t%s\n", schemaTok(c.schema), cus.String(), varsTok(c.vars),
+		docTok(c.op), limit, g.execCalls, g.code, g.statsC, g.statsL, g.httpExec, g.httpCode, g.httpStatus, g.resolverCalls, flat(c.query), g.getExec, g.getCode)
 }
 
 func limitsFor(r *rng.R, c int) []int {
@@ -902,6 +1018,7 @@ var directedOps = []directedOp{
 	{0, `mutation Op { a1: addPost(title: "t") { id author { id } } a2: bump(by: 3) }`, nil},
 	{0, `query Op { a1: posts { id } a2: posts { id } a3: posts { id } a4: posts { id } ... { a5: posts { id } } ... on Query { a6: posts { id a7: comments(first: 1) { post { id } } } } }`, nil},
 	{0, `query Other { me { friends { friends { friends { id name age } } } } } query Op { scalar me { ...F } } fragment F on User { id }`, nil},
+	{0, `query Other { scalar } query Op { me { friends { friends { id name } } } nodes { id } }`, nil},
 	{0, `query Op { scalar } mutation Other { a1: addPost(title: "x") { id related { id related { id } } } }`, nil},
 	{1, `query Op { shape { area next { area next { area next { area next { area next { area } } } } } } }`, nil},
 	{1, `query Op { sq { side a1: inner(n: 3) { side a2: inner(n: 3) { side a3: inner(n: 3) { side a4: inner(n: 3) { side } } } } } }`, nil},
@@ -973,9 +1090,18 @@ func main() {
 	r := rng.New(*seed ^ 0xC14C14)
 	schemas := []*ast.Schema{mustSchema(sdlA), mustSchema(sdlB)}
 
-	nCalc, nGate, nBad, nSa := 8000, 1500, 200, 5000
+	nCalc, nGate, nBad, nSa, nRand := 8000, 1500, 200, 5000, 4
 	if *tier == "thorough" {
-		nCalc, nGate, nBad, nSa = 40000, 6000, 600, 200000
+		nCalc, nGate, nBad, nSa, nRand = 200000, 20000, 2000, 300000, 40
+	}
+	for i := 0; i < nRand; i++ {
+		sdl := randomSDL(r.Fork())
+		s, err := gqlparser.LoadSchema(&ast.Source{Name: "random", Input: sdl})
+		if err != nil {
+			fmt.Fprintf(os.Stderr, "random schema does not load: %v\n%s\n", err, sdl)
+			os.Exit(3)
+		}
+		schemas = append(schemas, s)
 	}
 
 	// ---- safeAdd on the exhaustive boundary grid, then random pairs
@@ -1039,12 +1165,30 @@ func main() {
 		}
 	}
 
+	// ---- the Lean witness for "the definition itself is not monotone under a non-monotone custom function"
+	{
+		cus := customs{"Query.me": {kind: "l", a: -1, b: 10}}
+		qa, qb := `query Op { me { id } }`, `query Op { me { name id } }`
+		ca := &opCase{schema: schemas[0], query: qa, vars: map[string]any{}}
+		cb := &opCase{schema: schemas[0], query: qb, vars: map[string]any{}}
+		ca.load()
+		cb.load()
+		fmt.Fprintf(out, "witness\t%s\t%s\t%s\t%s\t%s\n", cus.String(),
+			implCalculate(&execSchema{schema: schemas[0], cus: cus}, ca.op, ca.vars),
+			implCalculate(&execSchema{schema: schemas[0], cus: cus}, cb.op, cb.vars), qa, qb)
+		emitCalc(ca, cus)
+		emitCalc(cb, cus)
+	}
+
 	// ---- seeded random operations
 	invalid := 0
 	for i := 0; i < nCalc; i++ {
 		si := 0
-		if r.Below(4) == 0 {
+		switch k := r.Below(8); {
+		case k == 0 || k == 1:
 			si = 1
+		case k >= 5:
+			si = 2 + r.Below(len(schemas)-2)
 		}
 		c := genOp(r.Fork(), schemas[si], 5)
 		if c.op == nil {
@@ -1068,6 +1212,35 @@ func main() {
 				k := keys[cr.Below(len(keys))]
 				cus[k] = expr{kind: "c", b: o.childOf[k] + cr.Below(3) - 1}
 				_, orc, _ = emitCalc(c, cus)
+			}
+		}
+		if i%4 == 1 {
+			// metamorphic: one more selection at the top level never lowers the complexity, whatever the custom functions
+			extra := []string{"zz: __typename", "zz: __typename ... { zy: __typename }", "... { zz: __typename }"}[cr.Below(3)]
+			if si <= 1 && c.op.Operation == ast.Query && cr.Below(2) == 0 {
+				extra = []string{"zz: scalar", "zz: __schema { description }", "... on Query { zz: scalar }"}[cr.Below(3)]
+			}
+			at := strings.Index(c.query, "{")
+			if cr.Below(2) == 0 { // at the end of the operation's selection set instead of the start
+				depth := 0
+				for j := at; j < len(c.query); j++ {
+					if c.query[j] == '{' {
+						depth++
+					} else if c.query[j] == '}' {
+						depth--
+						if depth == 0 {
+							at = j - 1
+							break
+						}
+					}
+				}
+			}
+			c2 := &opCase{schema: c.schema, query: c.query[:at+1] + " " + extra + " " + c.query[at+1:], vars: c.vars}
+			c2.load()
+			if c2.op != nil {
+				before := implCalculate(&execSchema{schema: c.schema, cus: cus}, c.op, c.vars)
+				after, _, _ := emitCalc(c2, cus)
+				fmt.Fprintf(out, "mono\t%s\t%s\t%s\t%s\t%s\n", cus.String(), before, after, flat(c.query), flat(c2.query))
 			}
 		}
 		if i < nGate {
